@@ -67,7 +67,9 @@ def gen_req(rng):
     hs = [(rng.choice(names), b"CL" + bytes(rng.choice(b"uvwxyz") for _ in range(4))) for _ in range(rng.randint(0, 4))]
     body = None if rng.random() < 0.5 else b"BODY" + bytes(rng.choice(b"0123456789") for _ in range(rng.randint(0, 20)))
     return {"scheme": scheme, "host": host, "port": port, "headers": hs, "body": body, "method": "POST" if body else "GET",
-            "sni": "sni.other.example" if rng.random() < 0.25 else None}
+            "sni": "sni.other.example" if rng.random() < 0.25 else None,
+            # the `target` extension: what goes on the request line of *this* request - not on the CONNECT line of a tunnel
+            "target_ext": (b"/elsewhere?via=ext" if rng.random() < 0.15 else None)}
 
 
 def hdr_arg(hs):
@@ -89,6 +91,8 @@ def run(ctx, driver):
             lines.append(f"est socks {px} {estb2.hexs(r['host'])} {eff_port}")
         elif r["scheme"] == "http":
             url = httpcore.URL(f"{r['scheme']}://{r['host']}" + (f":{r['port']}" if r["port"] else "") + "/tokC11")
+            if r.get("target_ext") is not None:
+                url = httpcore.URL(scheme=url.scheme, host=url.host, port=url.port, target=r["target_ext"])     # as Request.__init__ does
             hs = include_request_headers(list(r["headers"]), url=url, content=r["body"])
             lines.append(f"est forward {px} {estb2.hexs(r['method'])} {core.hexb(url.scheme)} {core.hexb(url.host)} "
                          f"{'none' if url.port is None else url.port} {core.hexb(url.target)} {hdr_arg(hs)} "
@@ -146,7 +150,7 @@ def check(rec, c, r, ans):
     import base64
     w = estb2.World(c)
     tok = "tokC11"
-    out = w.request(r["scheme"], r["host"], r["port"], tok, headers=r["headers"], content=r["body"], method=r["method"], sni=r.get("sni"))
+    out = w.request(r["scheme"], r["host"], r["port"], tok, headers=r["headers"], content=r["body"], method=r["method"], sni=r.get("sni"), target=r.get("target_ext"))
     rec.evals += 1
     rec.distinct.add(repr((sorted(c.items(), key=str), sorted(r.items(), key=str))))
     eff_port = r["port"] if r["port"] is not None else estb2.DEFAULT_PORT[r["scheme"]]
@@ -206,7 +210,9 @@ def check(rec, c, r, ans):
         pre = bytes(p.pre_tunnel)
         payload.update(to_proxy=repr(pre)[:600])
         req0 = p.requests[0] if p.requests else None
-        url = f"{r['scheme']}://{r['host']}" + (f":{r['port']}" if r["port"] else "") + f"/{tok}"
+        # the absolute form of the URL the request names; its path is the `target` extension when the caller gave one
+        url = f"{r['scheme']}://{r['host']}" + (f":{r['port']}" if r["port"] else "") + \
+            (r["target_ext"].decode() if r.get("target_ext") is not None else f"/{tok}")
         if req0 is None or req0["target"] != url.encode():
             rec.fail("forward-absolute-url", {}, payload)
         else:
